@@ -21,9 +21,11 @@ def threshold_reads():
                 if isinstance(n, ast.Name) and n.id == "threshold" and isinstance(n.ctx, ast.Load):
                     out.append(("confidence_prediction.py", n.lineno))
     src = open(os.path.join(REPO, "synrbl/balancing.py")).read()
-    for n in ast.walk(ast.parse(src)):
-        if isinstance(n, ast.Attribute) and n.attr == "confidence_threshold" and isinstance(n.ctx, ast.Load):
-            out.append(("balancing.py", n.lineno))
+    for fn in ast.walk(ast.parse(src)):
+        if isinstance(fn, ast.FunctionDef):
+            for n in ast.walk(fn):
+                if isinstance(n, ast.Attribute) and n.attr == "confidence_threshold" and isinstance(n.ctx, ast.Load):
+                    out.append(("balancing.py:" + fn.name, n.lineno))
     return out
 
 
@@ -62,7 +64,10 @@ def replay(d):
 def check(run):
     run.deductive(PC.MODULES)
     reads = threshold_reads()
-    ok = len([r for r in reads if r[0] == "confidence_prediction.py"]) == 2 and len([r for r in reads if r[0] == "balancing.py"]) == 1
+    # in Balancer: one read to pass it to predict, and (since the cache fix) one read for the cache key
+    bal = sorted(r[0] for r in reads if r[0].startswith("balancing.py"))
+    ok = len([r for r in reads if r[0] == "confidence_prediction.py"]) == 2 and \
+        bal.count("balancing.py:__run_pipeline") == 1 and all(b in ("balancing.py:__run_pipeline", "balancing.py:__try_cache") for b in bal)
     run.data_obligation("frame:threshold-reads", ok,
                         "the threshold is read only by the comparison and the issue text in predict, and Balancer reads "
                         "confidence_threshold only to pass it to predict (found: %s)" % reads)
